@@ -320,12 +320,18 @@ func (g *G) encLS2Body(id *identity, transient *signer, forge string) (body []by
 	if g.valid {
 		nk = r.pick(1, 2)
 	}
+	if forceLS2Keys != nil {
+		nk = len(forceLS2Keys)
+	}
 	body = append(body, byte(nk))
 	for i := 0; i < nk; i++ {
 		t := r.pick(4, 4, 0, 5, 6, 7, 1, 65280)
 		kl, ok := specCrypto[t]
 		if !ok || (r.coin(0.05) && !g.valid) {
 			kl = r.rng(0, 40)
+		}
+		if forceLS2Keys != nil {
+			t, kl = forceLS2Keys[i][0], forceLS2Keys[i][1]
 		}
 		body = cat(body, u16(t), u16(kl), r.bytes(kl))
 	}
@@ -353,8 +359,39 @@ func (g *G) forgeKind() string {
 	return g.R.pickS("", "", "", "", "zero", "self", "other")
 }
 
+// forceLS2Keys: when non-nil, the (type, declared length) of the encryption keys encLS2Body writes
+var forceLS2Keys [][2]int
+
+// genLS2KeyLengths: correctly signed LeaseSet2s whose encryption keys of KNOWN type declare every length near zero
+// and near the size the type calls for, at the first and at a later position (the random rounds reach a mismatch on a
+// known type only now and then, and a declared length below four bytes almost never).
+func genLS2KeyLengths(g *G) {
+	saved, savedValid := *g.R, g.valid // the fixtures take nothing from the stream the other generators see
+	defer func() { *g.R, g.valid = saved, savedValid }()
+	g.valid = false
+	for _, t := range []int{4, 0, 5} {
+		want := specCrypto[t]
+		for _, kl := range []int{0, 1, 2, 3, 4, want - 1, want + 1} {
+			for _, later := range []bool{false, true} {
+				forceLS2Keys = [][2]int{{t, kl}}
+				if later {
+					forceLS2Keys = [][2]int{{4, 32}, {t, kl}}
+				}
+				id := g.newIdentity(7, 4, false, nil)
+				body, sg := g.encLS2Body(id, nil, "")
+				forceLS2Keys = nil
+				g.gen = "ls2-keylen-known-type"
+				g.emit("readLS2", hx(cat(body, sg.sign(cat([]byte{3}, body)))))
+			}
+		}
+	}
+}
+
 func genSignedStructs(g *G, count int) {
 	r := g.R
+	if count >= 50 {
+		genLS2KeyLengths(g)
+	}
 	for i := 0; i < count; i++ {
 		// LeaseSet2
 		id := g.pickIdentity(false)
